@@ -104,10 +104,12 @@ func GenValue(c *Corpus, s *StructDef, seed uint64, o VOpt) *W {
 	if o.MaxDepth == 0 {
 		o.MaxDepth = 4
 	}
-	if o.Present == 0 {
-		o.Present = 0.7
-	}
 	v := &vgen{r: NewRng(Mix(seed, 0x7a1)), c: c, o: o, rem: o.Budget}
+	if o.Present == 0 {
+		// sparse values leave the size budget to the few fields that are present (a definition with fourteen
+		// containers otherwise never has a long one beyond its first few fields), dense ones exercise every field
+		v.o.Present = []float64{0.15, 0.4, 0.7, 0.7, 0.95}[NewRng(Mix(seed, 0x9e5)).Intn(5)]
+	}
 	return v.structW(s, 1)
 }
 
@@ -273,7 +275,7 @@ func (v *vgen) contLen(elem *T, depth int) int {
 func (v *vgen) foreign(s *StructDef, w *W, depth int) {
 	r := v.r
 	// unknown fields of every wire type
-	for k := r.Intn(3); k > 0; k-- {
+	for k := []int{0, 1, 1, 2, 2, 3, 5}[r.Intn(7)]; k > 0; k-- {
 		id := uint16(r.Next())
 		if r.Chance(1, 2) {
 			id = uint16(r.Intn(40))
